@@ -445,9 +445,21 @@ var c09Ranges = Register(Prop[c09RangeCase]{
 		for i := 0; i < n; i++ {
 			switch rapid.IntRange(0, 2).Draw(t, "fn") {
 			case 0:
+				if rapid.IntRange(0, 4).Draw(t, "hugedice") == 0 {
+					// spans that are a large fraction of 2^64: a bounded draw that rejects and redraws does so often
+					huge := rapid.SampledFrom([]float64{6.2e18, 4.7e18, 9e18, 3e18, 9223372036854774784, 6148914691236517205, 1e17}).Draw(t, "sides")
+					c.Draws = append(c.Draws, c09Draw{Fn: "dice", A: numVal(huge), B: numVal(0)})
+					break
+				}
 				c.Draws = append(c.Draws, c09Draw{Fn: "dice", A: numVal(intIn(1, 1<<53-1, "n")), B: numVal(0)})
 			case 1:
 				a := intIn(-(1 << 52), 1<<52, "a")
+				if rapid.IntRange(0, 4).Draw(t, "hugerange") == 0 {
+					// (the whole range fits an int64 and so does its size)
+					pair := rapid.SampledFrom([][2]float64{{0, 6.2e18}, {-3.1e18, 3.1e18}, {-4e18, 7e17}, {1, 9e18}, {-9e18, 0}, {-9e18, -2.8e18}, {-1e18, 5.2e18}}).Draw(t, "bounds")
+					c.Draws = append(c.Draws, c09Draw{Fn: "random_range", A: numVal(pair[0]), B: numVal(pair[1])})
+					break
+				}
 				b := a + float64(rapid.SampledFrom([]int64{0, 0, 1, 2, 5, 100, 1 << 20, 1 << 40}).Draw(t, "span"))
 				c.Draws = append(c.Draws, c09Draw{Fn: "random_range", A: numVal(a), B: numVal(math.Min(b, 1<<52))})
 			default:
